@@ -37,6 +37,8 @@ def plan(ctx):
             for K in spaces.ALLK[1:]:
                 for sp in ("S2", "T3"):
                     out.append((kind, K, sp, "float"))
+            for K in ("K0", "K4"):  # exactly-zero-sigma members next to ordinary team-mates (tau > 0)
+                out.append((kind, K, "P2z", "float"))
             for K in ("K6", "K7", "K8"):  # custom gamma callbacks with >= 4 teams
                 out.append((kind, K, "T4|V3", "float"))
             for sp in ("S2", "T3|V6", "P3"):  # gamma = 0 (for all / for the best-placed teams only): the variance step vanishes, the mean step must not
@@ -47,7 +49,7 @@ def plan(ctx):
     return out
 
 
-PARTS = {"PK": 2, "T5|V2": 4, "T6|V2": 8, "D7b1": 4, "D8b1": 8, "T4|V3": 2, "S2": 4, "P2": 6, "P3": 8, "T3": 8, "T4": 24, "T5": 64, "T6": 256, "D7": 24, "D8": 64, "D8x8": 64,
+PARTS = {"P2z": 2, "PK": 2, "T5|V2": 4, "T6|V2": 8, "D7b1": 4, "D8b1": 8, "T4|V3": 2, "S2": 4, "P2": 6, "P3": 8, "T3": 8, "T4": 24, "T5": 64, "T6": 256, "D7": 24, "D8": 64, "D8x8": 64,
          "D2x16": 1, "T3|V6": 2}
 
 
